@@ -23,6 +23,7 @@ import (
 
 	"github.com/moov-io/ach"
 
+	"verifharness/internal/gen"
 	"verifharness/internal/hx"
 	"verifharness/internal/rng"
 )
@@ -143,6 +144,37 @@ func loadFixtures() []fixture {
 		}
 		rel, _ := filepath.Rel(repo, p)
 		out = append(out, fixture{rel, string(b)})
+	}
+	return append(out, genFixtures(40)...)
+}
+
+// genFixtures renders valid files from the shared generator: every SEC code, IAT, ADV,
+// returns, NOC, optional addenda, non-ASCII names.
+func genFixtures(n int) []fixture {
+	var out []fixture
+	r := rng.FromEnv(15)
+	one := func(name string, mk func() *ach.File) {
+		defer func() { recover() }()
+		f := mk()
+		if f == nil {
+			return
+		}
+		txt, err := gen.Text(f, false)
+		if err != nil || txt == "" {
+			return
+		}
+		out = append(out, fixture{name, txt})
+	}
+	secs := append(gen.AllSECs(), "IAT", ach.ADV, ach.COR)
+	for i, sec := range secs {
+		sec := sec
+		one(fmt.Sprintf("gen:%s#%d", sec, i), func() *ach.File {
+			return gen.FileOfSEC(r, sec, gen.Opts{Addenda: true, Returns: i%2 == 0, NOC: sec == ach.COR, IAT: sec == "IAT"})
+		})
+	}
+	for i := 0; i < n; i++ {
+		o := gen.Opts{IAT: r.Bool(), Returns: r.Bool(), NOC: r.Chance(1, 3), Addenda: r.Bool(), NonASCII: r.Chance(1, 4), Offset: r.Chance(1, 4), MaxBatches: r.Range(1, 4)}
+		one(fmt.Sprintf("gen:mixed#%d", i), func() *ach.File { return gen.File(r, o) })
 	}
 	return out
 }
